@@ -81,6 +81,9 @@ func (a *scripted) Authenticate(params interface{}) (bool, interface{}, error) {
 		return true, nil, wrapped{rejMessage(a.name, o), context.Canceled}
 	case o == "plaindl":
 		return true, nil, wrapped{rejMessage(a.name, o), context.DeadlineExceeded}
+	case strings.HasPrefix(o, "rej") && strings.HasSuffix(o, "p"):
+		// a rejection that names who was rejected (a locked account): a rejection like any other (r9)
+		return true, "rejected-" + a.name, oerr.New(int32(rejStatus(o)), rejMessage(a.name, o))
 	case strings.HasPrefix(o, "rej"):
 		return true, nil, oerr.New(int32(rejStatus(o)), rejMessage(a.name, o))
 	}
